@@ -1,11 +1,11 @@
 package det
 
 import (
-	"strings"
 	"encoding/json"
 	"fmt"
 	"os"
 	"runtime"
+	"strings"
 	"time"
 
 	"github.com/apache/yunikorn-core/pkg/scheduler/objects"
@@ -39,43 +39,43 @@ type Step struct {
 
 // Engine runs one history against one core.
 type Engine struct {
-	C        *shim.Core
-	V        *View
-	Cur      *world.World
-	StepN    int
-	Ops      []*Op // executed operations
-	Viol     []Violation
-	Obs      map[string]int64 // observation counters (evidence)
-	Inconclusive string
-	Props    map[string]bool // properties whose oracles are active
-	Cmd      *os.File        // command log: every op is written before it is executed
-	ConfigYAML string
-	Configs  []string // all configs successfully loaded, in order
-	Hist     *History
-	KeepTrace bool
-	lastStep *Step
-	CheckProp string // the property this run is for
+	C                      *shim.Core
+	V                      *View
+	Cur                    *world.World
+	StepN                  int
+	Ops                    []*Op // executed operations
+	Viol                   []Violation
+	Obs                    map[string]int64 // observation counters (evidence)
+	Inconclusive           string
+	Props                  map[string]bool // properties whose oracles are active
+	Cmd                    *os.File        // command log: every op is written before it is executed
+	ConfigYAML             string
+	Configs                []string // all configs successfully loaded, in order
+	Hist                   *History
+	KeepTrace              bool
+	lastStep               *Step
+	CheckProp              string // the property this run is for
 	quotaPreemptionEnabled bool
-	GangStyle map[string]string // application id -> gang scheduling style as submitted (Hard, or Soft for anything else)
-	lastChanged bool
-	barrierTimeout time.Duration
+	GangStyle              map[string]string // application id -> gang scheduling style as submitted (Hard, or Soft for anything else)
+	lastChanged            bool
+	barrierTimeout         time.Duration
 }
 
 // History carries cross-step facts oracles need (monotone information, not state of the core).
 type History struct {
-	NodeForced   map[string]bool   // node saw an externally forced change since it was last non-negative
-	Preempted    map[string]int    // key -> number of PREEMPTED_BY_SCHEDULER announcements
-	AppStates    map[string][]string // per app: state sequence from updatedApp stream
-	LimitsChanged bool
-	Reloads      int
+	NodeForced      map[string]bool     // node saw an externally forced change since it was last non-negative
+	Preempted       map[string]int      // key -> number of PREEMPTED_BY_SCHEDULER announcements
+	AppStates       map[string][]string // per app: state sequence from updatedApp stream
+	LimitsChanged   bool
+	Reloads         int
 	ReloadsRejected int
-	SwapsConfirmed int
-	States map[string]bool
+	SwapsConfirmed  int
+	States          map[string]bool
 }
 
 func NewEngine(c *shim.Core, cfg string) *Engine {
 	e := &Engine{C: c, V: NewView(), Obs: map[string]int64{}, Props: map[string]bool{}, ConfigYAML: cfg, Configs: []string{cfg}, quotaPreemptionEnabled: strings.Contains(cfg, "quotapreemptionenabled: true"),
-		Hist: &History{NodeForced: map[string]bool{}, Preempted: map[string]int{}, AppStates: map[string][]string{}, States: map[string]bool{}},
+		Hist:           &History{NodeForced: map[string]bool{}, Preempted: map[string]int{}, AppStates: map[string][]string{}, States: map[string]bool{}},
 		barrierTimeout: 20 * time.Second}
 	return e
 }
